@@ -3,7 +3,7 @@ from __future__ import annotations
 from ..model import load_model
 from ..evalengine import pmap
 from ..simpengine import (rule_inputs, variable_free_inputs, reduce_trace, compare_trees, SIGN_REGIONS,
-                          FINE_REGIONS, random_trees, deep_pattern_sites)
+                          FINE_REGIONS, random_trees, deep_pattern_sites, unary_chains)
 from .. import spec
 
 
@@ -100,7 +100,7 @@ def generalise(a, b, ia, ib):
 
 def simp_case(args):
     tree, label, tier = args
-    tr = reduce_trace((tree, 80))
+    tr = reduce_trace((tree, 150))
     out = {"tree": spec.show(tree), "label": label, "kind": tr["kind"], "steps": [], "pattern": pattern_class(tree)}
     if tr["kind"] != "ok":
         out.update({k: v for k, v in tr.items() if k != "kind"})
@@ -138,7 +138,7 @@ def simp_case(args):
 def check(rep):
     model = load_model()
     tier = rep.tier
-    inputs = rule_inputs(model, tier) + variable_free_inputs(model)
+    inputs = rule_inputs(model, tier) + variable_free_inputs(model) + unary_chains(model, tier)
     if tier != "quick":
         inputs += random_trees(rep.seed, 400, 40)
     results = pmap(simp_case, [(t, l, tier) for (t, l) in inputs], chunksize=8)
@@ -167,7 +167,7 @@ def check(rep):
                     rep.unknown("C08.rule", who, "", f"{st['from']} -> {st['to']} at {{{p['at']}}}: {p['detail']}")
                     continue
                 if p["kind"] == "no-termination-within-analysis-budget":
-                    rep.unknown("C08.driver", label, "", f"{out['tree']}: more than 80 rewrite steps")
+                    rep.unknown("C08.driver", label, "", f"{out['tree']}: more than 150 driver steps")
                     continue
                 fi = model.functions.get(who)
                 where = fi.where if fi else ""
